@@ -355,8 +355,26 @@ theorem errAt : ∀ f, ErrAt S f := by
 
 /-! ## Statements and programs -/
 
+/-- `r` is what is left of `ts` after a prefix that ends with a statement delimiter -/
+def DelimEnd (ts r : List (Tok S)) : Prop :=
+  ∃ c d, ts = c ++ d :: r ∧ (d.tag = .newline ∨ d.tag = .semicolon)
+
+theorem DelimEnd.of {ts r1 r2 : List (Tok S)} {d : Tok S} (s1 : Suffix ts r1) (hc : r1 = d :: r2)
+    (hd : d.tag = .newline ∨ d.tag = .semicolon) : DelimEnd ts r2 := by
+  obtain ⟨c, rfl⟩ := s1
+  exact ⟨c, d, by rw [hc], hd⟩
+
+theorem DelimEnd.cons (t : Tok S) {ts r : List (Tok S)} (h : DelimEnd ts r) :
+    DelimEnd (t :: ts) r := by
+  obtain ⟨c, d, rfl, hd⟩ := h
+  exact ⟨t :: c, d, rfl, hd⟩
+
+theorem DelimEnd.suffix {ts r : List (Tok S)} (h : DelimEnd ts r) : Suffix ts r := by
+  obtain ⟨c, d, rfl, _⟩ := h
+  exact ⟨c ++ [d], by simp⟩
+
 theorem pDelete_suffix {fuel : Nat} {del : Tok S} {ts : List (Tok S)} {s r}
-    (h : pDelete fuel del ts = .ok s r) : Suffix ts r := by
+    (h : pDelete fuel del ts = .ok s r) : DelimEnd ts r := by
   simp only [pDelete] at h
   split at h
   · rename_i e1 r1 h1
@@ -364,17 +382,17 @@ theorem pDelete_suffix {fuel : Nat} {del : Tok S} {ts : List (Tok S)} {s r}
     split at h
     · split at h
       · rename_i d r2 h2
-        obtain ⟨rfl, _⟩ := consumeDelim_ok h2
+        obtain ⟨hc, hd⟩ := consumeDelim_ok h2
         cases h
-        exact s1.trans ⟨[_], rfl⟩
+        exact DelimEnd.of s1 hc hd
       · cases h
       · cases h
     · split at h
       · rename_i d r2 h2
-        obtain ⟨rfl, _⟩ := consumeDelim_ok h2
+        obtain ⟨hc, hd⟩ := consumeDelim_ok h2
         split at h
         · cases h
-          exact s1.trans ⟨[_], rfl⟩
+          exact DelimEnd.of s1 hc hd
         · cases h
       · cases h
       · cases h
@@ -428,9 +446,9 @@ set_option hygiene false in
 local macro "expr_stmt_suffix" : tactic => `(tactic| (
   split at h
   · rename_i d r2 h2
-    obtain ⟨hc, _⟩ := consumeDelim_ok h2
+    obtain ⟨hc, hd⟩ := consumeDelim_ok h2
     cases h
-    exact s1.trans ⟨[_], hc⟩
+    exact DelimEnd.of s1 hc hd
   · cases h
   · cases h))
 
@@ -492,7 +510,7 @@ theorem pStatementExpr_err {fuel : Nat} {ts : List (Tok S)} {e}
   · cases h
 
 theorem pStatementExpr_suffix {fuel : Nat} {ts : List (Tok S)} {s r}
-    (h : pStatement.pStatementExpr fuel ts = .ok s r) : Suffix ts r := by
+    (h : pStatement.pStatementExpr fuel ts = .ok s r) : DelimEnd ts r := by
   simp only [pStatement.pStatementExpr] at h
   split at h
   · rename_i e1 r1 h1
@@ -505,9 +523,9 @@ theorem pStatementExpr_suffix {fuel : Nat} {ts : List (Tok S)} {s r}
             have s2 := ((suffixAt fuel).expression _ _ _ h2).suffix
             split at h
             · rename_i d r3 h3
-              obtain ⟨rfl, _⟩ := consumeDelim_ok h3
+              obtain ⟨hc, hd⟩ := consumeDelim_ok h3
               cases h
-              exact s1.trans ((Suffix.cons _ (s2.trans ⟨[_], rfl⟩)).suffix)
+              exact DelimEnd.of (s1.trans (Suffix.cons _ s2).suffix) hc hd
             · cases h
             · cases h
           · cases h
@@ -521,10 +539,10 @@ theorem pStatementExpr_suffix {fuel : Nat} {ts : List (Tok S)} {s r}
             have s2 := ((suffixAt fuel).expression _ _ _ h2).suffix
             split at h
             · rename_i d r3 h3
-              obtain ⟨rfl, _⟩ := consumeDelim_ok h3
+              obtain ⟨hc, hd⟩ := consumeDelim_ok h3
               split at h
               · cases h
-                exact s1.trans ((Suffix.cons _ (s2.trans ⟨[_], rfl⟩)).suffix)
+                exact DelimEnd.of (s1.trans (Suffix.cons _ s2).suffix) hc hd
               · cases h
             · cases h
             · cases h
@@ -537,17 +555,17 @@ theorem pStatementExpr_suffix {fuel : Nat} {ts : List (Tok S)} {s r}
   · cases h
 
 theorem pStatement_suffix {fuel : Nat} {ts : List (Tok S)} {s r}
-    (h : pStatement fuel ts = .ok s r) : Suffix ts r := by
+    (h : pStatement fuel ts = .ok s r) : DelimEnd ts r := by
   simp only [pStatement] at h
   split at h
   · split at h
-    · exact (Suffix.cons _ (pDelete_suffix h)).suffix
+    · exact (pDelete_suffix h).cons _
     · split at h
       · split at h
         · rename_i d r2 h2
-          obtain ⟨rfl, _⟩ := consumeDelim_ok h2
+          obtain ⟨hc, hd⟩ := consumeDelim_ok h2
           cases h
-          exact ⟨[_, _], rfl⟩
+          exact (DelimEnd.of (Suffix.refl _) hc hd).cons _
         · cases h
         · cases h
       · exact pStatementExpr_suffix h
@@ -578,30 +596,45 @@ theorem pStatement_err {fuel : Nat} {ts : List (Tok S)} {e} (h : pStatement fuel
       · exact (pStatementExpr_err h).imp id .inr
   · exact (pStatementExpr_err h).imp id .inr
 
-/-- the errors `parse` may return on the whole input `ts` -/
-def ProgErrSpec (ts : List (Tok S)) (e : PErr) : Prop :=
+/-- `c` is empty or ends with a statement delimiter: what follows `c` starts a statement -/
+def StmtBoundary (c : List (Tok S)) : Prop :=
+  c = [] ∨ ∃ c' d, c = c' ++ [d] ∧ (d.tag = .newline ∨ d.tag = .semicolon)
+
+theorem StmtBoundary.append {c1 c : List (Tok S)}
+    (h1 : ∃ c' d, c1 = c' ++ [d] ∧ (d.tag = .newline ∨ d.tag = .semicolon))
+    (h : StmtBoundary c) : StmtBoundary (c1 ++ c) := by
+  rcases h with rfl | ⟨c', d, rfl, hd⟩
+  · simpa using .inr h1
+  · exact .inr ⟨c1 ++ c', d, by simp, hd⟩
+
+/-- the errors `parse` may return on the whole input `ts` (`inner` = the fuel of the expression
+    parser) -/
+def ProgErrSpec (inner : Nat) (ts : List (Tok S)) (e : PErr) : Prop :=
   ErrSpec ts e ∨
-  (e.kind = .cannotDelete ∧ ∃ c d r, ts = c ++ d :: r ∧ d.tag = .delete ∧
+  (e.kind = .cannotDelete ∧ ∃ c d r, ts = c ++ d :: r ∧ StmtBoundary c ∧ d.tag = .delete ∧
     e.pos = some (d.line, d.col)) ∨
-  (e.kind = .invalidAssignmentTarget ∧ ∃ c eq r, ts = c ++ eq :: r ∧ eq.tag = .equal ∧
+  (e.kind = .invalidAssignmentTarget ∧ ∃ c0 c eq r lhs, ts = c0 ++ (c ++ eq :: r) ∧
+    StmtBoundary c0 ∧ pExpression inner (c ++ eq :: r) = .ok lhs (eq :: r) ∧ eq.tag = .equal ∧
     e.pos = some (eq.line, eq.col))
 
-theorem ProgErrSpec.prepend (c : List (Tok S)) {r : List (Tok S)} {e : PErr}
-    (h : ProgErrSpec r e) : ProgErrSpec (c ++ r) e := by
-  rcases h with h | ⟨hk, c', d, r', rfl, hd, hp⟩ | ⟨hk, c', q, r', rfl, hq, hp⟩
+theorem ProgErrSpec.prepend {inner : Nat} {c : List (Tok S)}
+    (hc : ∃ c' d, c = c' ++ [d] ∧ (d.tag = .newline ∨ d.tag = .semicolon))
+    {r : List (Tok S)} {e : PErr} (h : ProgErrSpec inner r e) : ProgErrSpec inner (c ++ r) e := by
+  rcases h with h | ⟨hk, c', d, r', rfl, hb, hd, hp⟩ | ⟨hk, c0, c', q, r', lhs, rfl, hb, hl, hq, hp⟩
   · exact .inl (h.prepend c)
-  · exact .inr (.inl ⟨hk, c ++ c', d, r', by simp, hd, hp⟩)
-  · exact .inr (.inr ⟨hk, c ++ c', q, r', by simp, hq, hp⟩)
+  · exact .inr (.inl ⟨hk, c ++ c', d, r', by simp, hb.append hc, hd, hp⟩)
+  · exact .inr (.inr ⟨hk, c ++ c0, c', q, r', lhs, by simp, hb.append hc, hl, hq, hp⟩)
 
 theorem ProgErrSpec.of_statement {fuel : Nat} {ts : List (Tok S)} {e}
-    (h : pStatement fuel ts = .err e) : ProgErrSpec ts e := by
-  rcases pStatement_err h with h | ⟨hk, d, r, rfl, hd, hp⟩ | ⟨hk, c, q, r, _, hc, _, hq, hp⟩
+    (h : pStatement fuel ts = .err e) : ProgErrSpec fuel ts e := by
+  rcases pStatement_err h with h | ⟨hk, d, r, rfl, hd, hp⟩ | ⟨hk, c, q, r, lhs, hc, hl, hq, hp⟩
   · exact .inl h
-  · exact .inr (.inl ⟨hk, [], d, r, rfl, hd, hp⟩)
-  · exact .inr (.inr ⟨hk, c, q, r, hc, hq, hp⟩)
+  · exact .inr (.inl ⟨hk, [], d, r, rfl, .inl rfl, hd, hp⟩)
+  · subst hc
+    exact .inr (.inr ⟨hk, [], c, q, r, lhs, rfl, .inl rfl, hl, hq, hp⟩)
 
 theorem parseLoop_err (inner : Nat) : ∀ (f : Nat) (ts : List (Tok S)) e,
-    parseLoop inner f ts = .err e → ProgErrSpec ts e := by
+    parseLoop inner f ts = .err e → ProgErrSpec inner ts e := by
   intro f
   induction f with
   | zero =>
@@ -614,20 +647,22 @@ theorem parseLoop_err (inner : Nat) : ∀ (f : Nat) (ts : List (Tok S)) e,
     | cons t r =>
       simp only [parseLoop] at h
       split at h
-      · exact (ih _ _ h).prepend [t]
+      · rename_i hd
+        exact (ih _ _ h).prepend (c := [t]) ⟨[], t, rfl, by simpa using hd⟩
       · split at h
         · rename_i s rest hs
-          obtain ⟨c, hc⟩ := pStatement_suffix hs
+          obtain ⟨c, d, hc, hd⟩ := pStatement_suffix hs
           split at h
           · cases h
-          · rw [hc]
-            exact (ih _ _ h).prepend c
+          · rw [hc, show c ++ d :: rest = (c ++ [d]) ++ rest by simp]
+            exact (ih _ _ h).prepend ⟨c, d, rfl, hd⟩
         · rename_i e1 h1
           cases h
           exact ProgErrSpec.of_statement h1
         · cases h
 
-theorem parse_err {ts : List (Tok S)} {e} (h : parse ts = .err e) : ProgErrSpec ts e :=
+theorem parse_err {ts : List (Tok S)} {e} (h : parse ts = .err e) :
+    ProgErrSpec (parseFuel ts.length) ts e :=
   parseLoop_err _ _ _ _ h
 
 end Calc
